@@ -100,6 +100,11 @@ def subchecks(tier):
            "self_loops": 0.3, "system_capacity": 0.1}
     bprof2 = S.Profile(list(wb2), weights=wb2, required=("baulking", "batching", "priorities", "prio_preempt", "prio_reroute"), numeric="grid", max_nodes=2,
                        max_classes=3, plans=("max_time",), horizon=(5.0, 14.0), budget=600, load="heavy", max_c=2)
+    # baulking functions at nodes whose pre-emptive schedule leaves interrupted customers in the node: they belong to the population
+    wb3 = {"baulking": 1.0, "schedule": 1.0, "sched_preempt": 1.0, "batching": 0.4, "priorities": 0.3, "capacity": 0.3, "routing_objects": 0.2,
+           "self_loops": 0.3, "system_capacity": 0.1}
+    bprof3 = S.Profile(list(wb3), weights=wb3, required=("baulking", "schedule", "sched_preempt"), numeric="grid", max_nodes=2, max_classes=2,
+                       plans=("max_time",), horizon=(6.0, 16.0), budget=600, load="heavy", long_service=0.5)
     feed = common.slot_feed_profile("C13", downstream="int", more_weights={"reneging": 1.0, "jockeying": 0.3}, required=("slotted", "slot_capacitated", "slot_preempt", "reneging"),
                                     excluded=())
     return [
@@ -114,6 +119,9 @@ def subchecks(tier):
         SubCheck("baulking_reroute", baulk_execute_factory(bprof2), strategy=S.netspec(bprof2), n={"quick": 2400, "thorough": 15000},
                  kind="system", rule="batch arrivals with baulking functions at nodes with 're-route' pre-emption: an admitted batch member can push "
                                      "a customer out of the node before the next member's baulking function is evaluated; same oracle"),
+        SubCheck("baulking_sched_preempt", baulk_execute_factory(bprof3), strategy=S.netspec(bprof3), n={"quick": 2400, "thorough": 15000},
+                 kind="system", rule="baulking functions at nodes with pre-emptive server schedules: interrupted customers waiting for a server "
+                                     "count in the population the function sees; same oracle"),
         SubCheck("baulking", baulk_execute_factory(bprof), strategy=S.netspec(bprof), n={"quick": 6000, "thorough": 30000},
                  kind="system", rule="baulk <=> u < p(true population); baulk record; admission otherwise"),
     ]
